@@ -21,6 +21,7 @@ from mc import env  # noqa: F401
 from mc.kernel import Unit
 
 import itertools
+import math
 from fractions import Fraction as F
 
 from oracles import c09_ref as R
@@ -80,42 +81,47 @@ def _frac(v, den):
 
 
 class RefRegions:
-    """Reference evaluation of a list of regions with a per-(region, axis, value) memo."""
+    """Reference evaluation of a list of regions at lattice locations given as
+    {axis: integer numerator over `den`}; per-(region, axis, coordinate) memo of the
+    specification's axis scalar (exact Fractions; 0 and 1 kept as ints)."""
 
-    def __init__(self, supports):
-        self.regions = [
-            {ax: tuple(R.fr(x) for x in tri) for ax, tri in sup.items()} for sup in supports
-        ]
+    def __init__(self, supports, den):
+        self.den = den
+        self.regions = [[(ax, tuple(R.fr(x) for x in tri)) for ax, tri in sorted(sup.items())] for sup in supports]
         self._memo = {}
 
-    def scalar(self, k, loc):
+    def scalar(self, k, g):
         s = 1
         memo = self._memo
-        for ax, tri in self.regions[k].items():
-            v = loc.get(ax, 0)
+        for ax, tri in self.regions[k]:
+            v = g.get(ax, 0)
             key = (k, ax, v)
             t = memo.get(key)
             if t is None:
-                t = memo[key] = R.axis_scalar(R.fr(v), *tri)
-            if t == 0:
+                t = R.axis_scalar(F(v, self.den), *tri)
+                if t == 0 or t == 1:
+                    t = int(t)
+                memo[key] = t
+            if not t:
                 return 0
             s = s * t
         return s
 
-    def value(self, loc, deltas):
-        tot = F(0)
+    def value(self, g, deltas):
+        tot = 0
         for k, d in enumerate(deltas):
             if d:
-                s = self.scalar(k, loc)
+                s = self.scalar(k, g)
                 if s:
                     tot += d * s
         return tot
 
 
-def check_model(model, user_locs_frac, values, rec, tag, eval_locs):
-    """Core oracle for one VariationModel.  user_locs_frac: locations (Fractions) in the
-    caller's master order; values: master values in the same order; eval_locs: list of
-    (float loc, Fraction loc).  Returns False when a violation was recorded."""
+def check_model(model, flocs, glocs, den, values, rec, tag, eval_locs):
+    """Core oracle for one VariationModel.  flocs/glocs: master locations in the caller's
+    order as float dicts / integer-numerator dicts over `den`; values: master values in the
+    same order; eval_locs: list of (float loc, integer loc).  Returns False when a violation
+    was recorded."""
     ok = True
     n = len(values)
     scale = float(max(abs(v) for v in values))
@@ -124,16 +130,16 @@ def check_model(model, user_locs_frac, values, rec, tag, eval_locs):
     if sorted(order) != list(range(n)) or [model.mapping[j] for j in order] != list(range(n)):
         rec.violation("models:mapping", "%s mapping/reverseMapping are not inverse permutations" % tag)
         return False
-    mlocs = [user_locs_frac[j] for j in order]
+    mlocs = [glocs[j] for j in order]
     for i, l in enumerate(model.locations):
-        if {k: R.fr(v) for k, v in l.items()} != mlocs[i]:
+        if l != flocs[order[i]]:
             rec.violation("models:locations", "%s model.locations[%d] is not the mapped input location" % (tag, i))
             return False
     if len(model.supports) != n:
         rec.violation("models:supports-count", "%s %d supports for %d masters" % (tag, len(model.supports), n))
         return False
-    ref = RefRegions(model.supports)
-    mvals = [F(values[j]) for j in order]
+    ref = RefRegions(model.supports, den)
+    mvals = [values[j] for j in order]
     # -- exact: reference deltas by forward substitution, then evaluate at every master
     rdeltas = []
     for i in range(n):
@@ -148,8 +154,8 @@ def check_model(model, user_locs_frac, values, rec, tag, eval_locs):
         if got != mvals[i]:
             rec.violation(
                 "models:supports-not-interpolating",
-                "%s regions %s: deltas+regions evaluated by the specification give %s at master %s, master value is %s"
-                % (tag, model.supports, got, dict(mlocs[i]), mvals[i]),
+                "%s regions %s: deltas+regions evaluated by the specification give %s at master %s/%d, master value is %s"
+                % (tag, model.supports, got, dict(mlocs[i]), den, mvals[i]),
             )
             ok = False
             break
@@ -160,7 +166,7 @@ def check_model(model, user_locs_frac, values, rec, tag, eval_locs):
         ok = False
     # -- masters are recovered
     for j in range(n):
-        floc = {k: float(v) for k, v in user_locs_frac[j].items()}
+        floc = flocs[j]
         got = model.interpolateFromMasters(floc, list(values))
         if got is None or not close(got, values[j], scale):
             rec.violation(
@@ -169,22 +175,24 @@ def check_model(model, user_locs_frac, values, rec, tag, eval_locs):
             )
             ok = False
             break
+        got = model.interpolateFromMastersAndScalars(list(values), model.getScalars(floc))
+        if got is None or not close(got, values[j], scale):
+            rec.violation("models:interpolateFromMastersAndScalars", "%s at master %s: %r, master value %r" % (tag, floc, got, values[j]))
+            ok = False
+            break
     # -- lattice: reference tent product of deltas+supports == master-scalar weighting
     ne = 0
     for floc, qloc in eval_locs:
         ne += 1
         exp = float(ref.value(qloc, rdeltas))
-        g1 = model.interpolateFromMasters(floc, list(values))
-        g2 = model.interpolateFromDeltas(floc, deltas)
-        g3 = model.interpolateFromMastersAndScalars(list(values), model.getScalars(floc))
         ms = model.getMasterScalars(floc)
+        g1 = model.interpolateFromValuesAndScalars(values, ms)  # == interpolateFromMasters(floc, values)
+        g2 = model.interpolateFromDeltas(floc, deltas)
         bad = None
         if g1 is None or not close(g1, exp, scale):
             bad = ("models:masterScalars-vs-regions", "interpolateFromMasters", g1)
         elif g2 is None or not close(g2, exp, scale):
             bad = ("models:interpolateFromDeltas", "interpolateFromDeltas", g2)
-        elif g3 is None or not close(g3, exp, scale):
-            bad = ("models:interpolateFromMastersAndScalars", "interpolateFromMastersAndScalars", g3)
         elif not close(sum(ms), 1.0):
             bad = ("models:masterScalars-sum", "sum(getMasterScalars)", sum(ms))
         if bad:
@@ -197,45 +205,45 @@ def check_model(model, user_locs_frac, values, rec, tag, eval_locs):
 
 
 class ModelsUnit(Unit):
-    """One case = one master-location set x axisOrder x extrapolate flag."""
+    """One case = one master-location set x axisOrder x extrapolate flag.
+    case = [points (half units), axisOrder index, extrapolate, eval denominator, prime offset, eval lower bound (den units)]"""
 
     naxes = 1
     chunk = 24
+    perms = [None]
 
-    def spec(self, tier):
-        """-> (coordinate values in half units, [(set size, eval denominator)], perms, extrapolate sizes)"""
+    def families(self, tier):
+        """-> list of (coordinate values in half units, set size, eval denominator, perm indices, extrapolate too, positive octant only)"""
         raise NotImplementedError
 
     def cases(self, tier, seed):
-        vals, sizes, perms, xsizes = self.spec(tier)
-        pts = lattice_points(self.naxes, vals)
         off = (seed * 7) % len(PRIMES)
-        for size, den in sizes:
+        for vals, size, den, pis, xtra, positive in self.families(tier):
+            pts = lattice_points(self.naxes, vals)
             for comb in itertools.combinations(range(len(pts)), size):
                 sel = [list(pts[i]) for i in comb]
-                for pi in range(len(perms)):
-                    yield [sel, pi, 0, den, off]
-                if size in xsizes:
-                    yield [sel, 0, 1, den, off]
+                for pi in pis:
+                    yield [sel, pi, 0, den, off, 0 if positive else -den]
+                if xtra:
+                    yield [sel, 0, 1, den, off, -den]
 
     def bounds(self, tier, seed):
-        vals, sizes, perms, xsizes = self.spec(tier)
-        return {"axes": self.naxes, "coordinate_values": [v / 2 for v in vals], "set_sizes_and_eval_denominators": sizes,
-                "axisOrders": perms, "extrapolate_for_sizes": list(xsizes), "prime_offset": (seed * 7) % len(PRIMES)}
+        return {"axes": self.naxes, "axisOrders": self.perms, "prime_offset": (seed * 7) % len(PRIMES),
+                "families(coordinate values, set size, eval denominator, axisOrder indices, extrapolate, positive octant only)":
+                    [[[v / 2 for v in f[0]]] + list(f[1:]) for f in self.families(tier)]}
 
     def check(self, case, rec):
-        sel, pi, extrap, den, off = case
+        sel, pi, extrap, den, off, lo_eval = case
         naxes = self.naxes
         axes = AX[:naxes]
-        _, _, perms, _ = self.spec("quick")
-        perm = perms[pi]
+        perm = self.perms[pi]
         pts = [tuple(p) for p in sel]
         # the default master is deliberately not first in the caller's order
         pts.insert(len(pts) // 2, (0,) * naxes)
         n = len(pts)
         values = [PRIMES[(off + 7 * i) % len(PRIMES)] for i in range(n)]
         flocs = [loc_dict(p, axes, 2, _flt) for p in pts]
-        qlocs = [loc_dict(p, axes, 2, _frac) for p in pts]
+        glocs = [{ax: v * den // 2 for ax, v in zip(axes, p) if v} for p in pts]
         tag = "axisOrder=%s extrapolate=%d" % (perm, extrap)
         try:
             model = VariationModel([dict(l) for l in flocs], axisOrder=None if perm is None else list(perm), extrapolate=bool(extrap))
@@ -251,17 +259,19 @@ class ModelsUnit(Unit):
             rec.witness("intermediate on-axis master")
         shrunk = 0
         for sup in model.supports:
-            k = sum(1 for ax, (lo, pk, hi) in sup.items() if (lo, hi) not in ((0, 1), (-1, 0), (0.0, 1.0), (-1.0, 0.0)))
+            k = sum(1 for ax, (lo, pk, hi) in sup.items() if (lo, hi) not in ((0, 1), (-1, 0)))
             shrunk = max(shrunk, k)
         if not extrap:
             if shrunk >= 1:
                 rec.witness("box split: support narrower than the default box")
             if shrunk >= 2:
                 rec.witness("box split on two axes of one support")
+            if shrunk >= 3:
+                rec.witness("box split on three axes of one support")
         else:
             rec.witness("extrapolate model")
         # ---- evaluation lattice
-        rng = range(-den, den + 1)
+        rng = range(lo_eval, den + 1)
         if extrap:
             # the specification defines no extrapolation: stay inside the master bounding ranges
             lo = [min(p[a] for p in pts) for a in range(naxes)]
@@ -270,8 +280,11 @@ class ModelsUnit(Unit):
                     if all(lo[a] * den <= 2 * g[a] <= hi[a] * den for a in range(naxes))]
         else:
             grid = list(itertools.product(rng, repeat=naxes))
-        eval_locs = [(loc_dict(g, axes, den, _flt), loc_dict(g, axes, den, _frac)) for g in grid]
-        if not check_model(model, qlocs, values, rec, tag, eval_locs):
+            if lo_eval == 0:
+                grid.append((-den,) * naxes)
+                grid.append((-den // 2,) + (den // 2,) * (naxes - 1))
+        eval_locs = [(loc_dict(g, axes, den, _flt), {ax: v for ax, v in zip(axes, g) if v}) for g in grid]
+        if not check_model(model, flocs, glocs, den, values, rec, tag, eval_locs):
             return
         # ---- sub-models for every None pattern that keeps the default master
         if extrap or pi != 0:
@@ -291,60 +304,71 @@ class ModelsUnit(Unit):
                 if model.getSubModel(items)[0] is not sub:
                     rec.violation("models:submodel-cache", "getSubModel is documented as cached")
                     return
-                sub_eval = [(flocs[i], qlocs[i]) for i in keep]
-                if not check_model(sub, [qlocs[i] for i in keep], subitems, rec, "sub-model %s of %s" % (items, tag), sub_eval):
+                sub_eval = [(flocs[i], glocs[i]) for i in keep]
+                if not check_model(sub, [flocs[i] for i in keep], [glocs[i] for i in keep], den, subitems, rec, "sub-model %s of %s" % (items, tag), sub_eval):
                     return
                 if [float(x) for x in deltas] != [float(x) for x in sub.getDeltas(subitems)]:
                     rec.violation("models:getDeltasAndSupports", "pattern %s deltas differ from the sub-model's" % items)
                     return
 
 
-P1 = [None, ["a"]]
-P2 = [["a", "b"], ["b", "a"], None]
-P3 = [list(p) for p in itertools.permutations(["a", "b", "c"])]
+MODEL_ORACLE = ("master values distinct primes; oracle: exact forward-substituted deltas evaluated with the specification's tent product return each master exactly; "
+                "getDeltas, interpolateFromMasters (getMasterScalars weighting), interpolateFromDeltas (getScalars) agree with that reference at every lattice location, "
+                "interpolateFromMastersAndScalars at the masters; master scalars sum to 1; sub-model for every None pattern keeping the default; distinct = each (set,order,flag)")
 
 
 class Models1(ModelsUnit):
     name = "models-1axis"
     naxes = 1
     chunk = 4
-    rule = ("1 axis: every subset of {-1,-1/2,1/2,1} plus the origin as master locations x axisOrder {None,[a]} x extrapolate {no,yes}; "
-            "master values distinct primes; oracle: exact forward-substituted deltas evaluated with the specification's tent product return each master exactly; "
-            "getDeltas, interpolateFromMasters/-Deltas/-MastersAndScalars agree with it on the eighth lattice (17 points); sub-model for every None pattern; distinct = each (set,order,flag)")
+    perms = [None, ["a"]]
+    rule = "1 axis: every subset of {-1,-1/2,1/2,1} plus the origin as master locations x axisOrder {None,[a]} x extrapolate {no,yes}, evaluated on the eighth lattice (17 locations); " + MODEL_ORACLE
     required_witnesses = ("intermediate on-axis master", "box split: support narrower than the default box", "sub-model for a None pattern", "extrapolate model")
 
-    def spec(self, tier):
-        return [-2, -1, 1, 2], [(k, 8) for k in range(0, 5)], P1, (1, 2, 3, 4)
+    def families(self, tier):
+        return [([-2, -1, 1, 2], k, 8, [0, 1], k > 0, False) for k in range(0, 5)]
 
 
 class Models2(ModelsUnit):
     name = "models-2axes"
     naxes = 2
     chunk = 40
+    perms = [["a", "b"], ["b", "a"], None]
     rule = ("2 axes: every set of <=3 (quick; <=4 thorough) non-origin points of {-1,-1/2,0,1/2,1}^2 plus the origin, evaluated on the eighth lattice (289 locations), "
-            "and every set of 4 (5 thorough) points evaluated on the quarter lattice (81); x axisOrder {[a,b],[b,a],None}; extrapolate for sizes <=2; oracle as models-1axis; distinct = each (set,order,flag)")
+            "and every set of 4 (5 thorough) points evaluated on the quarter lattice (81); x axisOrder {[a,b],[b,a]} (None too for one point; quick: only [a,b] for 4 points); extrapolate for sizes <=2; " + MODEL_ORACLE)
     required_witnesses = ("off-axis master", "intermediate on-axis master", "box split: support narrower than the default box",
-                          "box split on two axes of one support", "sub-model for a None pattern", "extrapolate model")
+                          "sub-model for a None pattern", "extrapolate model")
 
-    def spec(self, tier):
+    def families(self, tier):
+        v = [-2, -1, 0, 1, 2]
+        fam = [(v, 1, 8, [0, 1, 2], True, False), (v, 2, 8, [0, 1], True, False), (v, 3, 8, [0, 1], False, False)]
         if tier == "quick":
-            sizes = [(1, 8), (2, 8), (3, 8), (4, 4)]
+            fam.append((v, 4, 4, [0], False, False))
         else:
-            sizes = [(1, 8), (2, 8), (3, 8), (4, 8), (5, 4)]
-        return [-2, -1, 0, 1, 2], sizes, P2, (1, 2)
+            fam.append((v, 4, 8, [0, 1], False, False))
+            fam.append((v, 5, 4, [0, 1], False, False))
+        return fam
 
 
 class Models3(ModelsUnit):
     name = "models-3axes"
     naxes = 3
     chunk = 30
-    rule = ("3 axes: every set of <=2 non-origin points of {-1,0,1}^3 plus the origin evaluated on the quarter lattice (729 locations), every set of 3 on the half lattice (125; thorough: quarter); "
-            "x all 6 axisOrder permutations; oracle as models-1axis; distinct = each (set,order)")
-    required_witnesses = ("off-axis master", "box split: support narrower than the default box", "box split on two axes of one support", "sub-model for a None pattern")
+    perms = [list(p) for p in itertools.permutations(["a", "b", "c"])]
+    rule = ("3 axes: (i) every set of <=3 non-origin points of {-1,0,1}^3 plus the origin: 1 point on the quarter lattice (729 locations) x 6 axisOrders, 2 points on the half lattice (125; thorough quarter) x 6 axisOrders, "
+            "3 points on the half lattice x axisOrders {abc, cba} (thorough: all 6); (ii) every set of <=2 (3 thorough) points of the positive octant {0,1/2,1}^3 on the quarter lattice of [0,1]^3 (+2 negative locations) "
+            "x axisOrders {abc, cba}; " + MODEL_ORACLE)
+    required_witnesses = ("off-axis master", "box split: support narrower than the default box", "sub-model for a None pattern")
 
-    def spec(self, tier):
-        sizes = [(1, 4), (2, 4), (3, 2 if tier == "quick" else 4)]
-        return [-2, 0, 2], sizes, P3, ()
+    def families(self, tier):
+        c = [-2, 0, 2]
+        o = [0, 1, 2]
+        allp = list(range(6))
+        if tier == "quick":
+            return [(c, 1, 4, allp, False, False), (c, 2, 2, allp, False, False), (c, 3, 2, [0, 5], False, False),
+                    (o, 1, 4, [0, 5], False, True), (o, 2, 4, [0, 5], False, True)]
+        return [(c, 1, 4, allp, False, False), (c, 2, 4, allp, False, False), (c, 3, 2, allp, False, False),
+                (o, 1, 4, [0, 5], False, True), (o, 2, 4, [0, 5], False, True), (o, 3, 4, [0, 5], False, True)]
 
 
 class Normalize(Unit):
@@ -415,12 +439,78 @@ class Normalize(Unit):
 
 
 # =========================================================================== E2 solver
-SOLVER_EPS = F(1, 16384)
+SOLVER_D = 32768  # every solver point is an integer multiple of 1/32768 (= EPSILON/2)
+_LIMIT_TABLE = {}
 
 
-def spec_tent(v, t):
-    """The specification's per-axis scalar on floats (same text as R.axis_scalar)."""
-    return R.axis_scalar(v, t[0], t[1], t[2])
+def limit_table(den):
+    """All (limit triple, distances) with their points: (numerator over 32768, float old
+    coordinate, float new coordinate by the implementation's renormalizeValue, side) where
+    side = +1/-1 for the point half an EPSILON above/below the new default, else 0."""
+    tab = _LIMIT_TABLE.get(den)
+    if tab is not None:
+        return tab
+    tab = []
+    q = range(-4, 5)
+    step = SOLVER_D // den
+    for amin in q:
+        for adef in q:
+            for amax in q:
+                if not amin <= adef <= amax:
+                    continue
+                dists = [(1, 1)]
+                if amin < 0 < amax and adef != 0:
+                    dists += [(2, 1), (1, 3)]
+                for dn, dp in dists:
+                    limit = NormalizedAxisTripleAndDistances(amin / 4, adef / 4, amax / 4, dn, dp)
+                    kmin, kdef, kmax = (x * SOLVER_D // 4 for x in (amin, adef, amax))
+                    ks = [(k, 0) for k in range(kmin, kmax + 1, step)]
+                    for sgn in (1, -1):
+                        ks.append((kdef + 2 * sgn, 0))  # default +- EPSILON
+                        ks.append((kdef + sgn, sgn))  # default +- EPSILON/2
+                    pts = []
+                    for k, side in ks:
+                        if kmin <= k <= kmax:
+                            fv = k / SOLVER_D
+                            pts.append((k, fv, limit.renormalizeValue(fv), side))
+                    tab.append((amin, adef, amax, dn, dp, limit, pts))
+    _LIMIT_TABLE[den] = tab
+    return tab
+
+
+class Renormalize(Unit):
+    name = "renormalize"
+    chunk = 16
+    rule = ("NormalizedAxisTripleAndDistances.renormalizeValue: every limit triple min<=default<=max on the quarter lattice of [-1,1] x distances {(1,1),(2,1),(1,3),(3,2)} x every old coordinate of the new range [min,max] on the sixteenth lattice "
+            "(outside the new range the specification defines nothing: instances are clamped): equals the fvar derivation (user space is piecewise linear in old normalised space with the two distances; normalise against the new (min,default,max)); distinct = each (limit, distances)")
+    required_witnesses = ("old default strictly inside one side of the new range (distances matter)",)
+
+    def cases(self, tier, seed):
+        q = range(-4, 5)
+        for amin in q:
+            for adef in q:
+                for amax in q:
+                    if amin <= adef <= amax:
+                        for dn, dp in ((1, 1), (2, 1), (1, 3), (3, 2)):
+                            yield [amin, adef, amax, dn, dp]
+
+    def check(self, case, rec):
+        amin, adef, amax, dn, dp = case
+        limit = NormalizedAxisTripleAndDistances(amin / 4, adef / 4, amax / 4, dn, dp)
+        qmin, qdef, qmax = F(amin, 4), F(adef, 4), F(amax, 4)
+        rec.nontrivial()
+        if (amin < 0 < adef) or (adef < 0 < amax):
+            rec.witness("old default strictly inside one side of the new range (distances matter)")
+        n = 0
+        for k in range(amin * 4, amax * 4 + 1):
+            v = F(k, 16)
+            exp = R.renormalize(v, qmin, qdef, qmax, F(dn), F(dp))
+            n += 1
+            got = limit.renormalizeValue(float(v))
+            if not close(got, float(exp)):
+                rec.violation("renormalizeValue", "%r.renormalizeValue(%s) = %r, fvar derivation gives %s" % (limit, v, got, exp))
+                return
+        rec.evals(n)
 
 
 class Solver(Unit):
@@ -428,10 +518,12 @@ class Solver(Unit):
     chunk = 6
     rule = ("rebaseTent: every tent lower<=peak<=upper on the quarter lattice of [-2,2] with peak!=0 and not straddling 0 (one case each) x every limit triple min<=default<=max on the quarter lattice of [-1,1] "
             "x distance pairs {(1,1)} plus {(2,1),(1,3)} when the old default lies strictly inside the new range x every point of [min,max] on the eighth lattice (sixteenth: thorough) plus default+-1/16384 and default+-1/32768: "
-            "sum(scalar * specification_tent(renormalised point)) == tent(point); renormalizeValue == the fvar derivation; the only exemption is the open 1/16384 interval of the documented nudge; "
-            "distinct = each (tent, limit, distances)")
+            "sum(scalar * specification_tent(renormalised point)) == tent(point) (exact Fraction tent; the new tents are read with the OpenType rules: peak 0, reversed or zero-straddling tents count as 1). "
+            "Tents with a jump strictly inside [-1,1] (outside the property's 'continuous over the axis range') are not judged at the jump itself, and in the documented EPSILON-nudge configuration not inside the open 1/16384 ramp "
+            "(there: value between 0 and 1); everywhere else they are judged under a separate class key; distinct = each (tent, limit, distances)")
     required_witnesses = ("tent dropped (no overlap)", "gain (always-on) deltaset", "two or more tents", "three or more tents", "mirrored (peak below new default)",
-                          "documented EPSILON nudge configuration", "pinned axis (min==max)", "asymmetric distances", "tent peak outside new range", "discontinuous tent (lower==peak or peak==upper inside the axis)")
+                          "documented EPSILON nudge configuration", "pinned axis (min==max)", "asymmetric distances", "tent peak outside new range",
+                          "tent with a jump inside the axis", "continuous tent judged")
 
     def cases(self, tier, seed):
         q = range(-8, 9)
@@ -448,93 +540,65 @@ class Solver(Unit):
     def check(self, case, rec):
         lo, pk, up, den = case
         tq = (F(lo, 4), F(pk, 4), F(up, 4))
-        tf = tuple(float(x) for x in tq)
-        discontinuous = (lo == pk and -4 < pk) or (pk == up and pk < 4)
-        if discontinuous:
-            rec.witness("discontinuous tent (lower==peak or peak==upper inside the axis)")
+        tf = (lo / 4, pk / 4, up / 4)
+        # a jump strictly inside the old axis range [-1,1]: the property quantifies over tents
+        # "continuous over the axis range" only
+        jump = (lo == pk and pk > -4) or (pk == up and pk < 4)
+        rec.witness("tent with a jump inside the axis" if jump else "continuous tent judged")
+        kpk = pk * SOLVER_D // 4
+        expected = {}
         n = 0
-        q = range(-4, 5)
-        for amin in q:
-            for adef in q:
-                if adef < amin:
+        for amin, adef, amax, dn, dp, limit, pts in limit_table(den):
+            solver.rebaseTent.cache_clear()
+            sols = solver.rebaseTent(tf, limit)
+            rec.nontrivial_n(1)
+            n += len(pts)
+            # ---- witnesses (input shape / output shape)
+            ntents = sum(1 for s, t in sols if t is not None)
+            if not sols:
+                rec.witness("tent dropped (no overlap)")
+            if ntents < len(sols):
+                rec.witness("gain (always-on) deltaset")
+            if ntents >= 2:
+                rec.witness("two or more tents")
+            if ntents >= 3:
+                rec.witness("three or more tents")
+            if pk < adef:
+                rec.witness("mirrored (peak below new default)")
+            if amin == amax:
+                rec.witness("pinned axis (min==max)")
+            if dn != dp:
+                rec.witness("asymmetric distances")
+            if pk < amin or pk > amax:
+                rec.witness("tent peak outside new range")
+            # the documented nudge: "A tent's peak cannot fall on axis default. Nudge it." - it has an effect
+            # exactly for a one-sided tent peaking at the new default with room on its open side
+            nudge_above = pk == adef and up == pk and adef < amax
+            nudge_below = pk == adef and lo == pk and amin < adef
+            if nudge_above or nudge_below:
+                rec.witness("documented EPSILON nudge configuration")
+            for k, fv, nv, side in pts:
+                exp = expected.get(k)
+                if exp is None:
+                    exp = expected[k] = float(R.axis_scalar(F(k, SOLVER_D), *tq))
+                got = 0.0
+                for s, t in sols:
+                    got += s if t is None else s * R.axis_scalar(nv, t[0], t[1], t[2])
+                if (side > 0 and nudge_above) or (side < 0 and nudge_below):
+                    # inside the nudged ramp the value moves between the two one-sided limits (1 and 0)
+                    if not (-EPS <= got <= 1 + EPS):
+                        rec.violation("solver:nudge-ramp-out-of-hull", "rebaseTent(%s, %s) = %s at %r (inside the nudged interval): %r" % (tf, tuple(limit), sols, fv, got))
+                        return
                     continue
-                for amax in q:
-                    if amax < adef:
+                if not close(got, exp):
+                    if jump and k == kpk:
+                        rec.count("tent with a jump: solution differs from the tent at the jump point itself (not judged)")
                         continue
-                    dists = [(1, 1)]
-                    if amin < 0 < amax and adef != 0:
-                        dists += [(2, 1), (1, 3)]
-                    for dn, dp in dists:
-                        n += self.one(tq, tf, (F(amin, 4), F(adef, 4), F(amax, 4)), dn, dp, den, rec)
+                    rec.violation("solver:value" + (":tent-with-jump-away-from-the-jump" if jump else ""),
+                                  "rebaseTent(%s, %s) = %s: at old coordinate %r (new %r) the solution gives %r, the tent gives %r"
+                                  % (tf, tuple(limit), sols, fv, nv, got, exp), observed=got, expected=exp)
+                    return
         rec.evals(n)
-
-    def one(self, tq, tf, lim, dn, dp, den, rec):
-        amin, adef, amax = lim
-        limit = NormalizedAxisTripleAndDistances(float(amin), float(adef), float(amax), dn, dp)
-        solver.rebaseTent.cache_clear()
-        sols = solver.rebaseTent(tf, limit)
-        rec.nontrivial_n(1)
-        lo, pk, up = tq
-        # ---- witnesses (input shape / output shape)
-        tents = [t for s, t in sols if t is not None]
-        if not sols:
-            rec.witness("tent dropped (no overlap)")
-        if any(t is None for s, t in sols):
-            rec.witness("gain (always-on) deltaset")
-        if len(tents) >= 2:
-            rec.witness("two or more tents")
-        if len(tents) >= 3:
-            rec.witness("three or more tents")
-        if pk < adef:
-            rec.witness("mirrored (peak below new default)")
-        if amin == amax:
-            rec.witness("pinned axis (min==max)")
-        if dn != dp:
-            rec.witness("asymmetric distances")
-        if pk < amin or pk > amax:
-            rec.witness("tent peak outside new range")
-        # the documented nudge: "A tent's peak cannot fall on axis default. Nudge it." - happens (with a
-        # non-zero scalar) exactly for a one-sided tent peaking at the new default with room on that side
-        nudge_above = pk == adef and up == pk and adef < amax
-        nudge_below = pk == adef and lo == pk and amin < adef
-        if nudge_above or nudge_below:
-            rec.witness("documented EPSILON nudge configuration")
-        # ---- points
-        pts = []
-        k0 = -((-amin * den).__floor__())  # ceil(amin*den)
-        k = k0
-        while F(k, den) <= amax:
-            pts.append((F(k, den), False))
-            k += 1
-        for sgn in (1, -1):
-            e = adef + sgn * SOLVER_EPS
-            if amin <= e <= amax:
-                pts.append((e, False))
-            h = adef + sgn * SOLVER_EPS / 2
-            if amin <= h <= amax:
-                pts.append((h, (nudge_above and sgn > 0) or (nudge_below and sgn < 0)))
-        for v, exempt in pts:
-            exp = R.axis_scalar(v, lo, pk, up)
-            fv = float(v)
-            nv = limit.renormalizeValue(fv)
-            rv = R.renormalize(v, amin, adef, amax, F(dn), F(dp))
-            if rv is None or not close(nv, float(rv)):
-                rec.violation("solver:renormalizeValue", "renormalizeValue(%s) under %s = %r, fvar derivation gives %s" % (v, limit, nv, rv))
-                return len(pts)
-            got = 0.0
-            for s, t in sols:
-                got += s * (1 if t is None else spec_tent(nv, t))
-            if exempt:
-                # inside the nudged ramp the value moves between the two one-sided limits (1 and 0)
-                if not (-EPS <= got <= 1 + EPS):
-                    rec.violation("solver:nudge-ramp-out-of-hull", "tent %s limit %s at %s (inside the nudged interval): %r" % (tf, limit, v, got))
-                continue
-            if not close(got, float(exp)):
-                fk = "solver:value" + (":discontinuous-tent" if ((lo == pk and -1 < pk) or (pk == up and pk < 1)) else "")
-                rec.violation(fk, "rebaseTent(%s, %s) = %s: at old coordinate %s (new %r) the solution gives %r, the tent gives %s"
-                              % (tf, tuple(limit), sols, v, nv, got, exp), case=[[int(x * 4) for x in tq], den], observed=got, expected=str(exp))
-                return len(pts)
-        return len(pts)
 
 
 # =========================================================================== E3 stores
@@ -571,10 +635,12 @@ VECTORS = [
     (32768, 0, -70000),
 ]
 MANY = [[1, 3], [0, 4], [1, 1]]
-# evaluation lattice: quarters of [0,1] x halves of [-1,1] (negative wght: every region is 0)
-SLOCS = [(F(a, 4), F(b, 2)) for a in range(0, 5) for b in range(-2, 3)] + [(F(-1, 2), F(1, 2)), (F(7, 8), F(3, 4)), (F(5, 8), F(-1, 4))]
+# evaluation lattice: quarters of [0,1] x {-1,0,1} plus interior points (negative wght: every region is 0)
+SLOCS = [(F(a, 4), F(b)) for a in range(0, 5) for b in (-1, 0, 1)] + [(F(-1, 2), F(1, 2)), (F(7, 8), F(3, 4)), (F(5, 8), F(-1, 4)), (F(1, 4), F(1, 2)), (F(3, 4), F(-1, 2))]
 SLOCS_F = [{"wght": float(a), "wdth": float(b)} for a, b in SLOCS]
 _REGION_AT = [[R.region_scalar({"wght": a, "wdth": b}, {ax: tuple(F(x) for x in tri) for ax, tri in reg.items()}) for a, b in SLOCS] for reg in REGIONS]
+# subset_varidxes variants (the bulk of the post-operations) are evaluated at 8 locations that tell all regions apart
+SLOCS_SMALL = [SLOCS.index(x) for x in [(F(1, 4), F(0)), (F(1, 2), F(0)), (F(3, 4), F(1)), (F(1), F(-1)), (F(1), F(1)), (F(7, 8), F(3, 4)), (F(5, 8), F(-1, 4)), (F(0), F(-1))]]
 _EXPECT = {}
 
 
@@ -623,6 +689,18 @@ def run_history(hist):
     return b, obl
 
 
+def epochs_with_store(hist):
+    """Number of setSupports epochs in which at least one item was stored."""
+    n, has = 0, False
+    for o in hist:
+        if o[0] == "ss":
+            n += has
+            has = False
+        else:
+            has = True
+    return n + has
+
+
 def store_state_key(b, cur_history):
     st = b._store
     regs = tuple(tuple((a.StartCoord, a.PeakCoord, a.EndCoord) for a in r.VarRegionAxis) for r in st.VarRegionList.Region)
@@ -659,7 +737,7 @@ def store_sanity(store, rec, tag):
     return True
 
 
-def verify_store(store, obl, idxmap, rec, tag, fkey, q=0, only=None):
+def verify_store(store, obl, idxmap, rec, tag, fkey, q=0, only=None, locs=None):
     """Every obligation evaluates, through VarStoreInstancer (one instancer moved over all
     lattice locations), to the stored vector's value.  q: quantization (0 = exact)."""
     if not store_sanity(store, rec, tag):
@@ -680,7 +758,8 @@ def verify_store(store, obl, idxmap, rec, tag, fkey, q=0, only=None):
         return True
     inst = VarStoreInstancer(store, FVAR, {})
     n = 0
-    for li, floc in enumerate(SLOCS_F):
+    for li in (range(len(SLOCS_F)) if locs is None else locs):
+        floc = SLOCS_F[li]
         inst.setLocation(floc)
         for (new, rids, vec), idx in todo.items():
             n += 1
@@ -712,7 +791,7 @@ class StoreHistories(Unit):
             "sharing regions, one with the base support, one permuted) | storeDeltas(6 vectors: zero, byte, byte extremes, word, word extremes, long) | storeDeltas(with leading base delta) | storeDeltasMany(2 [3] lists); "
             "then finish(optimize in {False,True}) followed by each of: nothing | compile+decompile | optimize(use_NO_VARIATION_INDEX in {True,False}) (+compile/decompile) | optimize(quantization=2) | "
             "subset_varidxes(every subset of the returned indices x retainFirstMap x advIdxes) | insert an unused region at 3 positions + prune_regions. "
-            "Oracle: a list model of (returned index -> regions, vector); every index, through the returned maps, evaluates via VarStoreInstancer to the exact Fraction value of its vector at 28 lattice locations "
+            "Oracle: a list model of (returned index -> regions, vector); every index, through the returned maps, evaluates via VarStoreInstancer to the exact Fraction value of its vector at 20 lattice locations (8 for the subset variants) "
             "(quantization: within q/2 * sum of scalars); derived counts and NumShorts recomputed; state = canonical (regions, VarData rows, current supports)")
     required_witnesses = ("existing VarData reused after setSupports", "region shared between VarData", "delta cache hit (same index returned twice)", "long words", "word deltas",
                           "zero row mapped to NO_VARIATION_INDEX", "optimize merged or re-sorted rows", "subset dropped a VarData", "subset renumbered a kept index",
@@ -742,19 +821,8 @@ class StoreHistories(Unit):
         # -- witnesses from the observable structure
         st = b._store
         keys = [tuple(d.VarRegionIndex) for d in st.VarData]
-        nss = sum(1 for o in hist if o[0] == "ss")
-        if nss > len(keys) and any(o[0] != "ss" for o in hist[1:]):
-            stores_after = 0
-            seen = set()
-            for o in hist:
-                if o[0] == "ss":
-                    curk = tuple(r for r in SUPPORTS[o[1]] if r >= 0)
-                elif curk in seen:
-                    stores_after = 1
-                else:
-                    seen.add(curk)
-            if stores_after:
-                rec.witness("existing VarData reused after setSupports")
+        if epochs_with_store(hist) > len(keys):
+            rec.witness("existing VarData reused after setSupports")
         if len(keys) >= 2 and set(keys[0]) & set(keys[1]):
             rec.witness("region shared between VarData")
         if len(idxs) < len({(o[0], o[2]) for o in obl}) or len(obl) > len({(o[0]) for o in obl}):
@@ -818,7 +886,7 @@ class StoreHistories(Unit):
                         m = store.subset_varidxes(set(sset), optimize=fin, retainFirstMap=retain, advIdxes=set(adv))
                         rec.transition(1)
                         tag = tag0 + " subset_varidxes(%s, retainFirstMap=%s, advIdxes=%s)" % (sorted(sset), retain, list(adv))
-                        if not verify_store(store, obl, m, rec, tag, "store:subset", only=sset):
+                        if not verify_store(store, obl, m, rec, tag, "store:subset", only=sset, locs=SLOCS_SMALL):
                             return
                         if len(store.VarData) < n0:
                             rec.witness("subset dropped a VarData")
@@ -829,8 +897,6 @@ class StoreHistories(Unit):
                             if any(m[i] != i for i in major0):
                                 rec.violation("store:subset-retainFirstMap", "%s: a major-0 index was renumbered: %s" % (tag, {i: m[i] for i in major0}))
                                 return
-                            if major0 and any(any(row) for row in rows0[: 0]):
-                                pass
                             if major0 and store.VarData and len(store.VarData[0].Item) == len(rows0):
                                 for mi, row in enumerate(store.VarData[0].Item):
                                     if mi not in sset and any(rows0[mi]):
@@ -855,15 +921,15 @@ class StoreHistories(Unit):
                 tag = tag0 + " unused region inserted at %d" % pos
                 if not verify_store(store, obl, None, rec, tag, "harness:insert-region"):
                     return
+                nused = len({r for d in store.VarData for r in d.VarRegionIndex})
                 store.prune_regions()
                 rec.transition(1)
                 if not verify_store(store, obl, None, rec, tag + " + prune_regions", "store:prune_regions"):
                     return
-                if store.VarData:
-                    if len(store.VarRegionList.Region) != nreg:
-                        rec.violation("store:prune_regions-kept-unused", "%s: %d regions after pruning, %d are used" % (tag, len(store.VarRegionList.Region), nreg))
-                        return
-                    rec.witness("prune_regions removed a region")
+                if len(store.VarRegionList.Region) != nused:
+                    rec.violation("store:prune_regions-kept-unused", "%s: %d regions after pruning, %d are used" % (tag, len(store.VarRegionList.Region), nused))
+                    return
+                rec.witness("prune_regions removed a region")
 
 
 # ----------------------------------------------------------------- multi var store
@@ -893,6 +959,20 @@ def run_multi(hist):
             idx = b.storeDeltas([Vector(v) for v in vecs])
             obl.append((idx, cur, vecs))
     return b, obl
+
+
+def multi_epochs_with_store(hist, obl):
+    """Epochs in which at least one not-all-zero item was stored (all-zero items are not stored)."""
+    n, has, k = 0, False, 0
+    for o in hist:
+        if o[0] == "ss":
+            n += has
+            has = False
+        else:
+            if obl[k][0] != MVS.NO_VARIATION_INDEX:
+                has = True
+            k += 1
+    return n + has
 
 
 def verify_multi(store, obl, idxmap, rec, tag, fkey, only=None):
@@ -958,8 +1038,7 @@ class MultiStoreHistories(Unit):
             rec.nontrivial()
         if any(i == MVS.NO_VARIATION_INDEX for i, _, _ in obl):
             rec.witness("all-zero item -> NO_VARIATION_INDEX")
-        nss = len({tuple(r for r in MSUPPORTS[o[1]] if r >= 0) for o in hist if o[0] == "ss"})
-        if len(st.MultiVarData) and sum(1 for o in hist if o[0] == "ss") > nss and hist[-1][0] == "sd":
+        if multi_epochs_with_store(hist, obl) > len(st.MultiVarData):
             rec.witness("existing MultiVarData reused")
         store = b.finish()
         rec.transition(1)
@@ -998,9 +1077,9 @@ class Iup(Unit):
     name = "iup"
     chunk = 2
     rule = ("IUP: contours of n<=3 points over a 6-point coordinate alphabet (incl. repeated, collinear, equal-x/equal-y points) and n=4 over the first 4 (quick; all 6 and n=5 over 4: thorough), as one contour or split in two, + 4 phantom points; "
-            "x every delta vector over a 6-delta alphabet (4 for the reduced sizes) x tolerance {0,0.5,1}. Oracle: exact Fraction IUP from the gvar specification. For all 2^n explicit-point subsets iup_delta == reference; "
-            "iup_delta_optimize never changes an explicit delta, its result re-inferred by the reference is within tolerance (Euclidean) of every original delta, raises no AssertionError, and the documented 'precise' forced set is "
-            "contained in every valid subset found by brute force; TupleVariation.optimize keeps the optimised form only if its compiled size is smaller and never changes values; distinct = each (coords, contours, deltas, tolerance)")
+            "x every delta vector over a 6-delta alphabet (quick: 4 for split 3-point outlines, 3 for n=4; thorough: 4 for n=5) x tolerance {0,0.5,1}. Oracle: exact Fraction IUP from the gvar specification. For all 2^n explicit-point subsets iup_delta == reference; "
+            "iup_delta_optimize never changes an explicit delta, its result re-inferred by the reference is within tolerance (Euclidean) of every original delta and it raises no AssertionError (forced set inside the solution); "
+            "non-minimal results and forced points that brute force shows unnecessary are counted only; TupleVariation.optimize (quick: tolerance 0.5 for n<=3; thorough: all) keeps the optimised form only if its compiled size is smaller and never changes values; distinct = each (coords, contours, deltas, tolerance)")
     required_witnesses = ("IUP dropped at least one delta", "optimizer kept every delta", "forced set non-empty", "forced set empty with deltas kept (circular DP)",
                           "interpolated (strictly between) inferred delta", "tolerance made a difference", "TupleVariation.optimize kept the unoptimised form although deltas could be dropped",
                           "TupleVariation.optimize adopted the optimised form", "two contours")
@@ -1008,29 +1087,34 @@ class Iup(Unit):
     def spec(self, tier):
         # (n, number of coordinate atoms, number of delta atoms, split into two contours too)
         if tier == "quick":
-            return [(1, 6, 6, False), (2, 6, 6, True), (3, 6, 6, True), (4, 4, 4, False)]
+            return [(1, 6, 6, False), (2, 6, 6, True), (3, 6, 6, True), (4, 4, 3, False)]
         return [(1, 6, 6, False), (2, 6, 6, True), (3, 6, 6, True), (4, 6, 6, True), (5, 4, 4, False)]
 
     def cases(self, tier, seed):
         for n, nc, nd, split in self.spec(tier):
+            tv = 2 if tier != "quick" else (1 if n <= 3 else 0)
             for cs in itertools.product(range(nc), repeat=n):
                 ends_list = [[n - 1]]
                 if split:
                     ends_list += [[k - 1, n - 1] for k in range(1, n)]
                 for ends in ends_list:
-                    if n >= 4 and nd == 6:
+                    if tier == "quick" and n >= 3 and len(ends) > 1:
+                        yield [list(cs), ends, 4, -1, tv]
+                    elif n >= 4 and nd == 6:
                         # cut the delta space of one coordinate tuple into 6 cases
                         for d0 in range(nd):
-                            yield [list(cs), ends, nd, d0]
+                            yield [list(cs), ends, nd, d0, tv]
                     else:
-                        yield [list(cs), ends, nd, -1]
+                        yield [list(cs), ends, nd, -1, tv]
 
     def bounds(self, tier, seed):
         return {"sizes(n, coord atoms, delta atoms, split)": self.spec(tier), "points": IUP_POINTS, "deltas": IUP_DELTAS, "tolerances": IUP_TOLS,
                 "phantom": [PHANTOM_C, PHANTOM_D]}
 
     def check(self, case, rec):
-        cs, ends, nd, d0 = case
+        cs, ends, nd, d0, tvmode = case
+        # TupleVariation.optimize: 2 = every tolerance, 1 = its default tolerance 0.5 only, 0 = not in this case
+        tv_tols = None if tvmode == 2 else (0.5,) if tvmode == 1 else ()
         n = len(cs)
         coords = [IUP_POINTS[i] for i in cs] + PHANTOM_C
         if len(ends) > 1:
@@ -1052,7 +1136,7 @@ class Iup(Unit):
                     ref = R.iup_outline(masked, coords, ends)
                     got = IUP.iup_delta(list(masked), list(coords), list(ends))
                     nev += 1
-                    if len(got) != n + 4 or any(not (close(g[0], float(r[0])) and close(g[1], float(r[1]))) for g, r in zip(got, ref)):
+                    if len(got) != n + 4 or any(g != r and not (close(g[0], float(r[0])) and close(g[1], float(r[1]))) for g, r in zip(got, ref)):
                         rec.violation("iup:iup_delta", "iup_delta(%s, %s, %s) = %s, gvar specification gives %s" % (masked, coords, ends, list(got), [(str(a), str(b)) for a, b in ref]))
                         return
                     inferred.append(ref)
@@ -1093,16 +1177,17 @@ class Iup(Unit):
                             if forced:
                                 any_forced = True
                             fmask = sum(1 << (a + i) for i in forced)
-                            for m in masks:
-                                if valid[m] and (m & fmask) != fmask:
-                                    rec.violation("iup:forced-set-not-necessary", "forced set %s of contour %s deltas %s tolerance %s, but explicit subset %s reproduces every delta within tolerance"
-                                                  % (sorted(forced), coords[a:b], deltas[a:b], tol, [i for i in range(n) if (m >> i) & 1]))
-                                    return
+                            if any(valid[m] and (m & fmask) != fmask for m in masks):
+                                # the docstring calls the forced set "precise"; when it is not, only optimality
+                                # suffers (values stay within tolerance), which the property does not promise
+                                rec.count("forced set contains a point that brute force shows is not necessary (tolerance %s)" % tol)
                         if any_forced:
                             rec.witness("forced set non-empty")
                         elif omask and len(spans) == 1 and len(set(deltas[:n])) > 1:
                             rec.witness("forced set empty with deltas kept (circular DP)")
                     # ---- TupleVariation.optimize
+                    if tv_tols is not None and tol not in tv_tols:
+                        continue
                     var = TupleVariation({"wght": (0.0, 1.0, 1.0)}, list(deltas))
                     size0 = sum(len(x) for x in var.compile(["wght"]))
                     var.optimize(list(coords), list(ends), tolerance=tol)
@@ -1129,4 +1214,4 @@ class Iup(Unit):
 
 
 def units():
-    return [Models1(), Models2(), Models3(), Normalize(), Solver(), StoreHistories(), MultiStoreHistories(), Iup()]
+    return [Models1(), Models2(), Models3(), Normalize(), Renormalize(), Solver(), StoreHistories(), MultiStoreHistories(), Iup()]
